@@ -1194,6 +1194,11 @@ def run_shard(ctx, spec):
                      sample={'pre': L.show(P), 'com': L.show_com(c), 'post': L.show(Q), 'tag': 'seed',
                              'vcs': rec.get('vc_strs'), 'verdict': str(rec.get('verdict', ''))[:80]} if j in (2, 6) else None)
         flush_calls(ctx)
+    for j, (names, c, P, Q) in enumerate(const_flow_cases(rng, 12 if ctx.tier == 'quick' else 120)):
+        rec = py_case(ctx, names, c, P, Q, 'const-flow')
+        ctx.count('py_const_flow_cases')
+        ctx.case(('py-const-flow', L.show_com(c), L.show(Q)), nontrivial=rec['status'] == 'ok')
+    flush_calls(ctx)
 
     # ---- stand-alone conditions: real printer -> real parser
     for k in range(spec['conds']):
@@ -1293,6 +1298,30 @@ def seed_cases():
                       ('seq', ('asg', 'a', op('+', v('a'), n(1))), ('asg', 'b', op('+', v('b'), n(1))))),
          op('<=', n(0), v('a')), op('<=', n(3), v('a'))),
     ]
+
+
+def const_flow_cases(rng, count):
+    """constants flow through assignments into arithmetic: x := a; y := x - b (b > a), y := x * k, ... and the
+    postcondition uses the result as the LEFT operand of + / - (whatever the VC generator does with constants -
+    folding, reordering - the condition it shows must read back as the condition it computed)"""
+    v = lambda n: ('v', n)
+    n = lambda k: ('n', k)
+    op = lambda o, *a: ('op', o) + a
+    out = []
+    for _ in range(count):
+        a, b, k = rng.randrange(0, 6), rng.randrange(1, 9), rng.randrange(2, 5)
+        e1 = rng.choice([op('-', v('x'), n(b)), op('-', n(a), v('x')), op('*', v('x'), op('-', n(0), n(k))),
+                         op('-', op('-', v('x'), n(b)), n(k)), op('+', op('-', v('x'), n(b)), v('x'))])
+        body = ('seq', ('asg', 'x', n(a)), ('asg', 'y', e1))
+        if rng.random() < 0.3:
+            body = ('seq', body, ('asg', 'w', op(rng.choice(['+', '-']), v('y'), v('z'))))
+        left = v('w') if body[2][1] == 'w' else v('y')
+        lhs = rng.choice([op('+', left, v('z')), op('-', left, v('z')), op('+', op('+', left, v('z')), n(1)), op('-', left, op('-', v('z'), n(1)))])
+        rel = rng.choice(['==', '<=', '<', '!='])
+        Q = op(rel, lhs, rng.choice([n(rng.randrange(0, 15)), op('-', n(0), n(rng.randrange(1, 15)))]))
+        P = rng.choice([('true',), op('==', v('z'), n(rng.randrange(0, 12))), op('<=', n(0), v('z'))])
+        out.append((['w', 'x', 'y', 'z'], body, P, Q))
+    return out
 
 
 def selfcheck_program(H, c, states):
